@@ -1,13 +1,86 @@
 """C20 - text helpers: xml_escape chain/table/order, format_hms decision table."""
+from fractions import Fraction
 from ..poly import Sym, mk_func
 from .. import poly
-from ..interp import (Interp, Hooks, Opaque, Str, Slot, Const, Cmp, NotC, State, TRUE, FALSE)
+from ..interp import (Interp, Hooks, Opaque, Str, Slot, Const, Cmp, NotC, State, TRUE, FALSE, DictV)
 from ..model import AnalysisError
 from .. import purity
 
 ENTITIES = {'&': {'&amp;', '&#38;', '&#x26;'}, '<': {'&lt;', '&#60;', '&#x3c;', '&#x3C;'},
             '>': {'&gt;', '&#62;', '&#x3e;', '&#x3E;'}, '"': {'&quot;', '&#34;', '&#x22;'},
             "'": {'&apos;', '&#39;', '&#x27;'}}
+
+
+SIMULTANEOUS = set()
+SAMPLE_TEXTS = ['', 'plain', '&', '<', '>', '"', "'", 'a&b', 'a<b>c', 'AT&amp;T', '&lt;tag&gt;',
+                '&#176;', '&#x26;', '&amp;amp;', "it's \"q\" & <more>", '&&', '&quot;', '&apos;x',
+                '&unknown;', '& ']
+
+
+def oracle_escape(t):
+    return t.replace('&', '&amp;').replace('<', '&lt;').replace('>', '&gt;') \
+        .replace('"', '&quot;').replace("'", '&apos;')
+
+
+class Unevaluable(Exception):
+    pass
+
+
+def eval_text_term(v, inp, sample):
+    import re
+    if v == inp:
+        return sample
+    if isinstance(v, Str) and v.is_lit():
+        return v.text()
+
+    def lit(x):
+        if isinstance(x, Str) and x.is_lit():
+            return x.text()
+        raise Unevaluable(repr(x)[:80])
+    if isinstance(v, Opaque):
+        if v.label == 'm:replace' and len(v.args) == 3:
+            return eval_text_term(v.args[0], inp, sample).replace(lit(v.args[1]), lit(v.args[2]))
+        if v.label == 'm:translate' and len(v.args) == 2 and isinstance(v.args[1], DictV):
+            table = {}
+            for k, val in v.args[1].items:
+                key = int(k.const_value()) if isinstance(k, Sym) else ord(lit(k))
+                table[key] = lit(val)
+            return eval_text_term(v.args[0], inp, sample).translate(table)
+        if v.label == 'call:re.sub' and len(v.args) >= 3:
+            return re.sub(lit(v.args[0]), lit(v.args[1]).replace('\\', '\\\\'),
+                          eval_text_term(v.args[2], inp, sample))
+        if v.label == 'm:sub' and len(v.args) >= 3 and isinstance(v.args[0], Opaque) and \
+                v.args[0].label == 'call:re.compile' and v.args[0].args:
+            return re.sub(lit(v.args[0].args[0]), lit(v.args[1]),
+                          eval_text_term(v.args[2], inp, sample))
+        if v.label in ('m:strip',) and v.args:
+            return eval_text_term(v.args[0], inp, sample).strip()
+    raise Unevaluable(repr(v)[:80])
+
+
+def escape_witness(rv, inp):
+    n = 0
+    for t in SAMPLE_TEXTS:
+        try:
+            got = eval_text_term(rv, inp, t)
+        except Unevaluable as exc:
+            return ('unevaluable', str(exc))
+        except Exception as exc:  # e.g. a malformed regular expression literal
+            return ('unevaluable', '%s: %s' % (type(exc).__name__, exc))
+        n += 1
+        if got != oracle_escape(t):
+            return ('witness', t, got, oracle_escape(t))
+    return ('agree', n)
+
+
+def returned_term(prog):
+    fn = prog.func('text_utils.xml_escape')
+    inp = Opaque('param:' + fn.params[0], (), 'str')
+    outs = Interp(prog).run(fn, [inp])
+    rets = [o for o in outs if o.kind == 'return']
+    if len(rets) != 1:
+        raise AnalysisError('xml_escape is not a single straight-line path')
+    return rets[0].value
 
 
 def extract_chain(ck, prog):
@@ -22,6 +95,23 @@ def extract_chain(ck, prog):
         raise AnalysisError('xml_escape is not a single straight-line path (%d outcomes)' % len(outs))
     v = rets[0].value
     chain = []
+    if isinstance(v, Opaque) and v.label == 'm:translate' and len(v.args) == 2 and \
+            isinstance(v.args[1], DictV):
+        # one simultaneous pass: every character is mapped at most once, so the ordering rule
+        # (no later step rewrites an earlier output) holds by construction
+        pairs = []
+        for k, val in v.args[1].items:
+            if isinstance(k, Sym) and k.is_const() and k.const_value().denominator == 1:
+                key = chr(int(k.const_value()))
+            elif isinstance(k, Str) and k.is_lit() and len(k.text()) == 1:
+                key = k.text()
+            else:
+                raise AnalysisError('xml_escape: translation table key %r' % (k,))
+            if not (isinstance(val, Str) and val.is_lit()):
+                raise AnalysisError('xml_escape: translation table value %r' % (val,))
+            pairs.append((key, val.text()))
+        SIMULTANEOUS.add(id(pairs))
+        return fn, pairs, v.args[0], inp
     while isinstance(v, Opaque) and v.label == 'm:replace' and len(v.args) == 3:
         obj, a, b = v.args
         if not (isinstance(a, Str) and a.is_lit() and isinstance(b, Str) and b.is_lit()):
@@ -38,8 +128,25 @@ def check_escape(ck, prog, chain_override=None, canary=False):
         fn, chain, base, inp = extract_chain(ck, prog)
         loc = fn.loc()
         base_ok = (base == inp)
+        if not chain or not base_ok:
+            # not a plain chain: evaluate the returned *term* (replace / translate / re.sub with
+            # literal arguments over the parameter) on sample texts and compare with the entity
+            # table; a differing sample is a genuine counterexample
+            rv = returned_term(prog)
+            res = escape_witness(rv, inp)
+            if res[0] == 'witness':
+                return [], [('C20-D2-table', 'xml_escape::witness',
+                             'xml_escape(%r) gives %r; escaping the five XML special characters '
+                             '(every occurrence, ampersand included) gives %r' % res[1:])], loc
+            raise AnalysisError('xml_escape does not return a chain of str.replace links (or one '
+                                'str.translate pass) applied to its argument (%s); cannot conclude'
+                                % ('the term agrees with the entity table on %d sample texts'
+                                   % res[1] if res[0] == 'agree' else 'the term %r cannot be '
+                                   'evaluated' % (base,)))
+        simultaneous = id(chain) in SIMULTANEOUS
     else:
         chain, base_ok, loc = chain_override, True, 'fixture'
+        simultaneous = False
     found = []
 
     def bad(rule, key, msg):
@@ -65,7 +172,7 @@ def check_escape(ck, prog, chain_override=None, canary=False):
             bad('C20-D2-table', 'xml_escape::missing:%r' % c,
                 'special character %r is never escaped' % c)
     # D3: no later step rewrites the output of an earlier one
-    for i, (a_i, b_i) in enumerate(chain):
+    for i, (a_i, b_i) in enumerate([] if simultaneous else chain):
         for a_j, b_j in chain[i + 1:]:
             if a_j and a_j in b_i:
                 bad('C20-D3-order', 'xml_escape::order:%r-before-%r' % (a_i, a_j),
@@ -94,6 +201,81 @@ def cond_form(c, truth):
     if not truth:
         op = {'<': '>=', '>=': '<', '<=': '>', '>': '<=', '==': '!=', '!=': '=='}[op]
     return c.a, op
+
+
+def _fmt(val, spec):
+    """Format an exact rational the way the f-string spec would (specs used for time fields)."""
+    from fractions import Fraction
+    if spec in ('', 'd', '02', '02d', '2', '2d', '0>2'):
+        if Fraction(val).denominator != 1:
+            raise KeyError('non-integer in an integer field')
+        n = int(val)
+        if spec in ('', 'd'):
+            return str(n)
+        if spec in ('2', '2d'):
+            return '%2d' % n
+        return '%02d' % n
+    if spec == '.3f':
+        q = Fraction(val) * 1000
+        fl = q.numerator // q.denominator
+        rem = q - fl
+        if rem > Fraction(1, 2) or (rem == Fraction(1, 2) and fl % 2 == 1):
+            fl += 1
+        sign = '-' if fl < 0 else ''
+        fl = abs(fl)
+        return '%s%d.%03d' % (sign, fl // 1000, fl % 1000)
+    raise KeyError('format spec %r' % spec)
+
+
+def hms_expected(d):
+    """The property's text for a duration of d seconds (exact rational)."""
+    if d < 10:
+        return _fmt(d, '.3f') + ' Seconds'
+    fl = d.numerator // d.denominator
+    rem = d - fl
+    r = fl + (1 if rem > Fraction(1, 2) or (rem == Fraction(1, 2) and fl % 2 == 1) else 0)
+    if r < 60:
+        return '%02d Seconds' % r
+    if r < 3600:
+        return '%d:%02d (Minutes, seconds)' % (r // 60, r % 60)
+    return '%d:%02d:%02d (Hours, minutes, seconds)' % (r // 3600, (r // 60) % 60, r % 60)
+
+
+def hms_witness(prog):
+    from ..props import motion
+    samples = [Fraction(x) for x in (
+        '0', '0.0004', '1.2345', '5.231', '9.9994', '9.9996', '10', '10.4', '10.6', '11', '12.49',
+        '59', '59.4', '59.5', '59.6', '60', '61', '61.5', '119.6', '599.7', '3599', '3599.4',
+        '3599.5', '3599.6', '3600', '3601', '3661', '7199.7', '86399.5', '360000')]
+    n = 0
+    for ms in (False, True):
+        fn, outs = hms_table(prog, ms)
+        for d in samples:
+            arg = d * 1000 if ms else d
+            pt = {'duration': arg}
+            want = hms_expected(d)
+            for o in outs:
+                try:
+                    conds = []
+                    for c, t in o.state.path:
+                        nc = motion.norm_path_cond(c, t)
+                        if nc is None:
+                            raise KeyError('non-numeric condition')
+                        conds.append(nc)
+                    if not all(motion._holds(e.evaluate(pt), op) for e, op in conds):
+                        continue
+                    if o.kind != 'return':
+                        return ('witness', arg, ms, 'raises %s' % o.value, want)
+                    if not isinstance(o.value, Str):
+                        raise KeyError('non-text result')
+                    got = ''.join(p_ if isinstance(p_, str) else _fmt(p_.value.evaluate(pt), p_.spec)
+                                  for p_ in o.value.parts)
+                except (KeyError, ZeroDivisionError, TypeError, AttributeError):
+                    return ('unevaluable', 0)
+                n += 1
+                if got != want:
+                    return ('witness', arg, ms, got, want)
+    return ('agree', n)
 
 
 def check_hms(ck, prog):
@@ -276,6 +458,27 @@ def run(ck, prog, tier):
     _, f2, _ = check_escape(ck, prog, [('&', '&amp;'), ('<', '&lt;'), ('>', '&gt;'),
                                        ('"', '&quote;'), ("'", '&apos;')])
     ck.canary('C20-D2 entity typo', any(f[0] == 'C20-D2-table' for f in f2))
-    check_hms(ck, prog)
+    from ..report import Trial
+    trial = Trial(ck)
+    problem = None
+    try:
+        check_hms(trial, prog)
+    except AnalysisError as exc:
+        problem = str(exc)
+    if problem is None and not trial.violations:
+        trial.merge_into(ck)
+    else:
+        reason = problem or trial.violations[0]['message']
+        res = hms_witness(prog)
+        if res[0] == 'witness':
+            ck.ob('C20-D4-hms', 'format_hms::witness', False,
+                  'format_hms(%s, milliseconds=%s) gives %r; expected %r. [structural finding: %s]'
+                  % (res[1], res[2], res[3], res[4], reason[:300]), prog.func(
+                      'text_utils.format_hms').loc(),
+                  key=trial.violations[0]['key'] if trial.violations else 'format_hms::witness')
+        else:
+            raise AnalysisError('format_hms: %s; but the extracted path table gives the expected '
+                                'text on all %s sampled durations; cannot conclude'
+                                % (reason[:400], res[1]))
     ck.floor('format_hms obligations', sum(1 for o in ck.obligations if o['rule'] == 'C20-D4-hms'), 9)
     ck.exhaustive = True
